@@ -1,5 +1,6 @@
 /- C16 — helper lemmas about the fields of a bit pattern (sign bit + magnitude bits). -/
 import TetlProofs.C16.Round
+import TetlProofs.C16.Mono
 import Tetl.C16.Model
 set_option linter.unusedVariables false
 namespace Tetl.C16
